@@ -114,7 +114,7 @@ func safe(s pState) string {
 }
 
 func runC20(r *mc.Run) {
-	r.Rule = "BFS to fixpoint over bridge parameter states (rate, cap, confirmations, minimum) from three safe genesis corners under DepositTax/Confirmation/MinDeposit requests over a 12-value 64-bit alphabet (single requests, every pair of values of two different kinds in one request list, and further multi-request lists), each applied by the real ProcessBridgeRequest; the whole menu again from the three corners on every configurable bitcoin network; in every reachable state deposits of 8 values go through the real MsgNewDeposits handler; oracle = bounds invariant, targeted parameter unchanged by out-of-range requests, 0 <= tax < value, amount > 0, value >= minimum > dust"
+	r.Rule = "BFS to fixpoint over bridge parameter states (rate, cap, confirmations, minimum) from three safe genesis corners under DepositTax/Confirmation/MinDeposit requests over a 12-value 64-bit alphabet (single requests, every pair of values of two different kinds in one request list, and further multi-request lists), each applied by the real ProcessBridgeRequest; the whole menu again from the three corners on every configurable bitcoin network; in every reachable state deposits of 8 values go through the real MsgNewDeposits handler; request lists (each value alone, next to in-range requests of the other kinds, after an in-range request of its own kind) inside an execution block through the real PrepareProposal/ProcessProposal/FinalizeBlock together with a withdrawal request: block applied, same parameters as the direct keeper call, last in-range request wins, withdrawal on record; oracle = bounds invariant, targeted parameter unchanged by out-of-range requests, 0 <= tax < value, amount > 0, value >= minimum > dust"
 	r.Assumptions = []string{"parameter states are materialised by writing Params on a branch (the handler reads nothing else)", "dust limit fixed at 1000 satoshi in the oracle"}
 	vals := c20V
 	if r.Thorough() {
@@ -259,6 +259,7 @@ func runC20(r *mc.Run) {
 		}
 		r.Outcome("network-corner-swept")
 	})
+	c20Pipeline(r, vals)
 	r.Bounds["bfs_levels_to_fixpoint"] = level
 	r.Bounds["reachable_parameter_states"] = len(seen)
 	r.Sample(c20Detail{From: corners[1], Reqs: menu[17], To: corners[1]})
